@@ -5,6 +5,7 @@ package alloc
 import (
 	"sync/atomic"
 
+	"github.com/jech/storrent/verifhook"
 	"golang.org/x/sys/unix"
 )
 
@@ -16,6 +17,9 @@ func Alloc(size int) ([]byte, error) {
 	if size < cutoff {
 		atomic.AddInt64(&allocated, int64(size))
 		return make([]byte, size), nil
+	}
+	if err := verifhook.Fault("alloc.mmap"); err != nil {
+		return nil, err
 	}
 	p, err := unix.Mmap(-1, 0, size,
 		unix.PROT_READ|unix.PROT_WRITE,
